@@ -98,6 +98,16 @@ def inst(e, i):
     return e
 
 
+NEG_ZERO, POS_ZERO = "8000000000000000", "0000000000000000"
+
+
+def cz(x):
+    """canonical sign of zero: a definition written with Python ints is evaluated in int arithmetic (`(-2) * 0` is the int 0, `max(0, x)`
+    returns the int 0), which has no -0; the model computes in doubles. The sign of a zero is not part of any value compared here
+    (no generated expression divides by an element)."""
+    return x.replace(NEG_ZERO, POS_ZERO) if isinstance(x, str) else x
+
+
 def group_of(kinds, n):
     """(first flat id, size) of the vector flat id n belongs to, or None.  kinds entries: 'o' | 'o:3' (member of the
     vector whose first member has flat id 3)."""
@@ -180,6 +190,8 @@ class Real:
             self.sc.constants[self.name(op[1])] = op[2]
             self.sc.setup_constants()
             self.sc.reset_cache()
+        elif k == "reject":       # a call the code refuses; the model must be as before
+            do_reject(self.m, op[1])
         elif k == "reset":
             self.m.reset_cache()
         elif k == "sreset":
@@ -191,7 +203,7 @@ class Real:
     def value(self, n, k):
         try:
             v = self.m.evaluate_equation(self.name(n), START + k * DT)
-            return "nan" if v != v else fbits(v)
+            return "nan" if v != v else cz(fbits(v))
         except RecursionError:
             return "none"
         except Exception as e:  # noqa
@@ -229,6 +241,8 @@ def op_lines(op, kinds, scpts=None):
             scpts = {}
         scpts[op[1]] = op[2]
         return ["setpoints %d %s" % (p, tab_hex(ti)) for p, ti in scpts.items() if not isinstance(p, tuple)] + ["sreset"]
+    if op[0] == "reject":
+        return ["rejected"]
     if op[0] == "scconst":        # setup_constants writes ALL of the scenario's constants so far, then the scenario cache is reset
         if scpts is None:
             scpts = {}
@@ -252,6 +266,7 @@ def settled(ops):
     d = False
     for o in ops:
         if o[0] == "setpoints": d = True
+        elif o[0] == "reject": pass
         elif o[0] == "eval":
             if d: return False
         else: d = False
@@ -264,6 +279,7 @@ def op_show(op):
     if k == "arrset": return "v[..] (flat id %d) = %s" % (op[1], show(op[2]))
     if k == "veceq": return "v%d.equation = %s" % (op[1], show(op[2]))
     if k == "setpoints": return "model.points['p%d'] = %s" % (op[1], TABLES[op[2]])
+    if k == "reject": return "REJECTED call (%s), exception caught" % op[1]
     if k == "scconst": return "scenario constant e%d = %r; setup_constants(); scenario.reset_cache()" % (op[1], op[2])
     if k == "scpoints": return "scenario points p%d = %s; setup_points(); reset_cache()" % (op[1], TABLES[op[2]])
     if k == "setinit": return "e%d.initial_value = %s" % (op[1], show(op[2]))
@@ -360,7 +376,7 @@ def agg_read(m, names):
         for k in range(KMAX + 1):
             try:
                 v = m.evaluate_equation(nm, START + k * DT)
-                out[(nm, k)] = "nan" if v != v else fbits(v)
+                out[(nm, k)] = "nan" if v != v else cz(fbits(v))
             except Exception as e:  # noqa
                 out[(nm, k)] = "ERR:" + type(e).__name__
     return out
@@ -528,7 +544,7 @@ def frame_bits(df):
     cols = {}
     for c in df.columns:
         nm = next((n for n in BP_NAMES if c == n or c.endswith("_" + n)), c)
-        cols[nm] = [("nan" if v != v else fbits(v)) for v in df[c]]
+        cols[nm] = [("nan" if v != v else cz(fbits(v))) for v in df[c]]
     return cols, [repr(float(t)) for t in df.index]
 
 
@@ -689,6 +705,49 @@ def models_isolated():
     return None
 
 
+# ------------------------------------------------------------------ rejected API calls (wave 10)
+REJECTS = ["vecstock-int", "vecconst-str", "veclen", "matlen", "const-type", "init-int", "unknown", "arr-index"]
+_rej_counter = [0]
+
+
+def do_reject(m, kind):
+    """an API call the code rejects with an exception (caught here, as a notebook user's `try:` or a REPL would);
+    returns the exception's type name, or None when the call was accepted. Scratch element names are unique per call."""
+    _rej_counter[0] += 1
+    nm = "rj %d.x" % _rej_counter[0]
+    try:
+        if kind == "vecstock-int": m.stock(nm).setup_vector(2, [1, 2])              # whole-number initial values of an arrayed stock
+        elif kind == "vecconst-str": m.constant(nm).setup_vector(2, [1.0, "x"])      # a non-number in a constant vector
+        elif kind == "veclen": m.converter(nm).setup_vector(3, [1.0])                # default list of the wrong length
+        elif kind == "matlen": m.converter(nm).setup_matrix([2, 2], [[1.0, 2.0]])    # default matrix of the wrong shape
+        elif kind == "const-type": m.constant(nm).equation = "text"                  # Constants only take numbers
+        elif kind == "init-int": m.stock(nm).initial_value = 3                       # ints are not accepted as initial value
+        elif kind == "unknown": m.evaluate_equation("no such element", START)
+        elif kind == "arr-index": m.converter(nm)[0]                                 # indexing an element that is not arrayed
+        return None
+    except Exception as e:  # noqa
+        return type(e).__name__
+
+
+def probe_rejected_is_noop():
+    """behavioural: elements evaluated, a rejected call (each kind), an edit of an element others depend on — the dependent
+    must follow; also a reset through the model API."""
+    from BPTK_Py import Model
+    report, ok = {}, True
+    for kind in REJECTS:
+        m = Model(starttime=START, stoptime=START + KMAX * DT, dt=DT, name="c08r")
+        c = m.constant("c"); c.equation = 2.0
+        k = m.converter("k"); k.equation = c * 3.0
+        s_ = m.stock("s"); s_.initial_value = c; s_.equation = k
+        before = (m.evaluate_equation("k", START), m.evaluate_equation("s", START + DT))
+        raised = do_reject(m, kind)
+        c.equation = 5.0
+        after = (m.evaluate_equation("k", START), m.evaluate_equation("s", START + DT))
+        report[kind] = {"raised": raised, "k,s after c := 5": list(after)}
+        ok = ok and before == (6.0, 5.0) and after == (15.0, 12.5)
+    return ok, report
+
+
 # ------------------------------------------------------------------ probes (mechanism facts)
 def probe_initial_value():
     r = Real(["s", "o"])
@@ -727,19 +786,20 @@ def probe_first_store():
 def gen_lean(f):
     b = lambda x: "true" if x else "false"
     cfg = (f"def cfg : Cfg := {{ initialValueResetsCache := {b(f['init'])}, addEquationResetsCache := {b(f['add'])}, "
-           f"memoizeFirstStoreWins := {b(f['first'])}, operandsThroughMemo := {b(f['operands'])}, resetClearsAllStores := {b(f['stores'])} }}\n")
-    if f["init"] and f["add"] and f["first"] and f["operands"] and f["stores"]:
+           f"memoizeFirstStoreWins := {b(f['first'])}, operandsThroughMemo := {b(f['operands'])}, resetClearsAllStores := {b(f['stores'])}, rejectedIsNoOp := {b(f['rejected'])} }}\n")
+    if f["init"] and f["add"] and f["first"] and f["operands"] and f["stores"] and f["rejected"]:
         body = "theorem holds : C08_full cfg := C08_full_of_good cfg (by decide)\n#print axioms holds\n"
     else:
         thm = ("C08_witness_stale_init_full" if not f["init"] else
                "C08_witness_stale_add_full" if not f["add"] else
                "C08_witness_race_full" if not f["first"] else
-               "C08_witness_baked_full" if not f["operands"] else "C08_witness_second_store_full")
+               "C08_witness_baked_full" if not f["operands"] else
+               "C08_witness_second_store_full" if not f["stores"] else "C08_witness_rejected_full")
         body = (f"theorem violated : ¬ C08_full cfg := {thm} cfg (by decide)\n#print axioms violated\n"
                 "#print axioms C08_partial_evals\n#print axioms C08_deterministic_threads\n")
     # the `memoize` of XMILE-generated model classes (no edit API: only the store rule is a fact of its own)
     body += (f"def cfgX : Cfg := {{ initialValueResetsCache := true, addEquationResetsCache := true, "
-             f"memoizeFirstStoreWins := {b(f['xfirst'])}, operandsThroughMemo := true, resetClearsAllStores := true }}\n")
+             f"memoizeFirstStoreWins := {b(f['xfirst'])}, operandsThroughMemo := true, resetClearsAllStores := true, rejectedIsNoOp := true }}\n")
     if f["xfirst"]:
         body += "theorem holdsX : C08_conc cfgX := C08_stochastic_threads cfgX (by decide)\n#print axioms holdsX\n"
     else:
@@ -781,6 +841,8 @@ def allowed_refs(kinds, n):
 def gen_edit(rng, kinds, extra):
     n = rng.below(len(kinds))
     r = rng.below(12)
+    if r >= 10 and rng.chance(1, 3):
+        return ("reject", rng.choice(REJECTS))
     if r >= 10:
         cs = [i for i, k in enumerate(kinds) if k == "c"]
         if cs and rng.chance(1, 2):
@@ -835,6 +897,19 @@ INIT_PREFIX = [("seteq", 0, ("L", 2.0)), ("seteq", 1, ("B", 2, ("R", 0), ("L", 1
                ("seteq", 3, ("B", 1, ("B", 2, ("R", 2), ("L", 2.0)), ("R", 0))), ("seteq", 4, ("L", 7.0)),
                ("seteq", 5, ("B", 2, ("R", 4), ("L", 0.5)))]
 INIT_VALUES = [("L", 1.0), ("L", 1.0), ("L", 10.0), ("R", 0), ("R", 4), ("R", 5), ("L", 0.0), ("L", -2.5)]     # float (twice: same value), float, constant, constant, converter
+
+
+def reject_cases():
+    """elements evaluated, a REJECTED call of every kind, then an edit of an element others depend on (equation, constant,
+    initial value, add_equation) and reads — compared with a model that never saw the rejected call"""
+    out = []
+    edits = [[("seteq", 0, ("L", 3.0))], [("setinit", 2, ("L", 10.0))], [("seteq", 1, ("B", 2, ("R", 0), ("L", 0.5)))],
+             [("addeq", 0, ("L", 4.0))], [("reset",), ("seteq", 0, ("L", 3.0))]]
+    for kind in REJECTS:
+        for ed in edits:
+            out.append((FIX_KINDS, FIX_PREFIX + [("eval", 3, 2), ("eval", 2, 1), ("reject", kind)] + ed + [("eval", 3, 2)], 4))
+            out.append((FIX_KINDS, FIX_PREFIX + [("eval", 3, 2), ("reject", kind), ("reject", kind)] + ed + [("eval", 3, 2), ("reject", kind)] + ed, 4))
+    return out
 
 
 def init_transition_cases():
@@ -906,7 +981,7 @@ def fixed_alphabet():
     return [("seteq", 0, ("L", 3.0)), ("seteq", 1, ("B", 2, ("R", 0), ("L", 0.5))), ("seteq", 2, ("B", 0, ("R", 1), ("R", 3))),
             ("setinit", 2, ("L", 10.0)), ("setinit", 2, ("R", 0)), ("seteq", 3, ("B", 0, ("R", 2), ("R", 0))),
             ("addeq", 0, ("L", 0.0)), ("addeq", 1, ("B", 2, ("R", 0), ("L", 2.0))), ("reset",), ("sreset",),
-            ("scconst", 0, 5.0), ("eval", 3, 2), ("eval", 2, 1), ("eval", 1, 0)]
+            ("scconst", 0, 5.0), ("reject", "vecstock-int"), ("eval", 3, 2), ("eval", 2, 1), ("eval", 1, 0)]
 
 
 FIX_PREFIX = [("seteq", 0, ("L", 2.0)), ("seteq", 1, ("B", 2, ("R", 0), ("L", 1.5))), ("seteq", 2, ("R", 1)),
@@ -920,6 +995,7 @@ def seq_cases(chk):
     # wave 2: points edits (exhaustive over their own alphabet), initial-value transitions, arrayed elements
     out += [(PTS_KINDS, PTS_PREFIX + list(h), 4) for h in itertools.product(points_alphabet(), repeat=L)]
     out += init_transition_cases()
+    out += reject_cases()
     n_exh = len(out)
     rng = chk.rng.fork("c08-seq")
     for _ in range(250 if chk.quick else 4000):
@@ -934,7 +1010,7 @@ def run_seq(chk, facts):
     cases, n_exh, L = seq_cases(chk)
     # the operands bit is a fact about the term generator of aggregates, which are not part of the driver's expression
     # language (they are checked by the aggregate family against freshly built models): the streams run the model with 1
-    req = ["cfg %d %d %d 1 1" % (facts["init"], facts["add"], facts["first"])]
+    req = ["cfg %d %d %d 1 1 1" % (facts["init"], facts["add"], facts["first"])]
     real = ["ok"]
     kinds_hist = {}
     stale = []
@@ -945,7 +1021,14 @@ def run_seq(chk, facts):
             req.append(ln); real.append("ok")
         hl = history_lines(ops, kinds)
         for hi_, (op, lns) in enumerate(hl):
-            v = r.apply(op)
+            if op[0] == "reject":
+                # the part of a rejected call that ran before it raised may have reset the cache (an arrayed stock defines its
+                # first member before the second is refused): emptying the memo is always allowed, keeping stale values is not
+                before_ = r.memo()
+                v = r.apply(op)
+                lns = ["rejected"] + (["reset"] if (before_ and not r.memo()) else [])
+            else:
+                v = r.apply(op)
             for ln in lns:
                 req.append(ln); real.append(v if op[0] == "eval" else "ok")
             kinds_hist[op[0]] = kinds_hist.get(op[0], 0) + 1
@@ -984,6 +1067,7 @@ def run_seq(chk, facts):
     chk.cov["seq_exhaustive_histories"] = n_exh
     model = drive("C08", req)
     def same(i, a, b):
+        a, b = cz(a), cz(b)
         if a == b:
             return True
         if req[i] == "memo":          # the code may keep MORE entries than the clear-everything model (each checked by `peek`)
@@ -1392,7 +1476,7 @@ def run_conc(chk, facts, scratch=None):
             scheds = scheds[:1 + E * len(reqs)] + scheds[1 + E * len(reqs)::3]
             full2 = False
         dist[name] = {"line_events": E, "schedules": len(scheds), "all_two_preemptions": full2}
-        header = (["cfg %d %d %d 1 1" % (facts["init"], facts["add"], facts["xfirst" if xm else "first"])] + Real(kinds).new_lines() +
+        header = (["cfg %d %d %d 1 1 1" % (facts["init"], facts["add"], facts["xfirst" if xm else "first"])] + Real(kinds).new_lines() +
                   [op_line(o) for o in defs])
         req += header; exp += ["ok"] * len(header); meta += [None] * len(header)
         seen = set()
@@ -1426,7 +1510,7 @@ def run_conc(chk, facts, scratch=None):
     diff = None
     for i, (m, e) in enumerate(zip(model, exp)):
         if isinstance(e, tuple):
-            if parse_conc_reply(m) != e:
+            if parse_conc_reply(cz(m)) != tuple(cz(x) if isinstance(x, str) else [cz(y) for y in x] for x in e):
                 diff = i; break
         elif m != e:
             diff = i; break
@@ -1451,6 +1535,7 @@ def _run(chk, scratch):
     facts = {"init": probe_initial_value(), "add": probe_add_equation(), "first": probe_first_store(),
              "xfirst": probe_first_store_x(scratch), "operands": probe_operands_through_memo()}
     facts["stores"], chk.notes["stores_consulted_by_memoize"] = probe_reset_clears_all_stores()
+    facts["rejected"], chk.notes["rejected_calls"] = probe_rejected_is_noop()
     chk.notes["cfg"] = facts
     ok, why = chk.prove(gen_lean(facts))
     chk.cov["trusted_base"] = [
